@@ -168,6 +168,9 @@ type Options struct {
 	Keys     *KeyStore
 	// WrapSource lets a check interpose on the configuration source.
 	NoServe bool // only build the loader (C13 lookups)
+	// ShareContext: the loader and Serve run under ONE context, as cmds/server/main.go wires them
+	// (cancelling the server then also cancels whatever the loader does with its context)
+	ShareContext bool
 	// Interpose, if set, is placed between the configuration source and the
 	// loader: it receives the source's channel and returns the channel the loader reads.
 	Interpose func(in chan config.ServerConfig) chan config.ServerConfig
@@ -355,6 +358,10 @@ func Start(cfg config.ServerConfig, opt Options) (*Ref, error) {
 	var sopts []tq.Option
 	if opt.Proxy {
 		sopts = append(sopts, tq.SetUseProxy(true))
+	}
+	if opt.ShareContext {
+		r.Srv = kit.StartCtx(ctx, cancel, n, tp, lg, ld, sopts...)
+		return r, nil
 	}
 	r.Srv = kit.Start(n, tp, lg, ld, sopts...)
 	return r, nil
